@@ -20,3 +20,8 @@ claimed["C01"] = dict(engine="engine-I", category="model_checking",
   text="every valid CIGAR over MIDNSHP=X with <=3 (thorough 4) operators of length 1-2 at every POS on a 6-base reference, pad on/off; every ordered pair (thorough: triple) of short records of one query with agreeing and conflicting bases; every stream of 2-4 (5) records over two names and six flag classes; every window/pad/wrap/thread combination on representative files; a slice replayed through the real binary. Each result row is compared with an independent projection/merge/flank model",
   note="trusted: the projection model in harness/ref_sam.go (N = no coverage); domain restrictions listed in the evidence assumptions; biogo/hts SAM parser; small-scope argument for lengths beyond the bound",
   design_ref="DESIGN.md 3 (C01)")
+claimed["C02"] = dict(engine="engine-I", category="model_checking",
+  technique="bounded-exhaustive input and operation-history enumeration on the real entry point vs. reference pairwise model + differential against toMultiAlign",
+  text="every valid single-record CIGAR (<=3/4 operators) at every POS; every master alignment over M/I/D (<=4/5 operators) cut into 2 (3) records at every cut point (adjacent, separated, overlapping), hard- and soft-clipped, both file orders; every window x omit-reference x skip-insertions x directory/stdout x wrap x threads on representative files; every ordered pair of option settings run into one output directory; each row compared with an independent pairwise model and, oracle-free, with the real --skip-insertions and toMultiAlign --pad outputs",
+  note="trusted: pairwise model in harness/ref_sam.go; 'non-conflicting' = disjoint or match-only overlaps; biogo/hts parser; small-scope argument beyond the bounds",
+  design_ref="DESIGN.md 3 (C02)")
